@@ -355,6 +355,16 @@ def _set_aggregates(context, resource_provider, provided_aggregates,
     # with at least one resource provider. We may wish to do that
     # to avoid bloat if it turns out we're creating a lot of noise.
     # Not doing now to move things along.
+    if not increment_generation:
+        # Without the generation compare-and-swap (microversions before 1.19)
+        # nothing else notices that the provider was deleted after it had
+        # been read; do not associate aggregates with a provider that is gone.
+        sel = sa.select(_RP_TBL.c.id).where(
+            _RP_TBL.c.id == rp_id).with_for_update()
+        if not context.session.execute(sel).first():
+            raise exception.NotFound(
+                'No resource provider with uuid %s found' %
+                resource_provider.uuid)
     provided_aggregates = set(provided_aggregates)
     existing_aggregates = _get_aggregates_by_provider_id(context, rp_id)
     agg_uuids_to_add = provided_aggregates - set(existing_aggregates.values())
